@@ -150,6 +150,12 @@ class Run:
         self._sites = None
         self.rng = random.Random((seed * 1000003) ^ int(sha(prop)[:8], 16))
         os.makedirs(os.path.join(REPLAY, prop), exist_ok=True)
+        import glob
+        for old in glob.glob(os.path.join(REPLAY, prop, "v%s_%d_*.json" % (tier[0], seed))):
+            try:
+                os.remove(old)
+            except OSError:
+                pass
 
     # ---- recording ----
     def feature(self, *names):
